@@ -219,7 +219,7 @@ class Ctx:
                     continue
                 verd["bad"] += 1
                 self.verdicts.add({"kind": "crash" if why == "crash" else "mismatch", "why": "recorded call disagrees with the specification (%s)" % why,
-                                   "sc": [] if why == "variant-drift" else [self.pid],
+                                   "sc": [] if why in ("variant-drift", "open-body") else [self.pid],
                                    "rule": r["plain"]["rule"], "data": r["plain"]["data"], "expected": "Eval(rule, data) of spec/JsonLogic.tla", "actual": r["plain"]["out"], "profile": "release",
                                    "case": {"rule": r["rule"], "data": r["data"], "exp": {"ok": False, "v": {"t": "z"}, "log": []}, "note": "recorded call; bin/replay re-runs it"}}, "records-" + family)
             verd["ok"] += len(lines) - len(bad)
@@ -429,7 +429,7 @@ def suite_traces(ctx):
         r = json.loads(lines[int(mm.group(1)) - 1])
         nbad += 1
         ctx.verdicts.add({"kind": "mismatch", "why": "a call made by the repository's own test suite disagrees with the specification (%s)" % mm.group(2),
-                          "sc": [] if mm.group(2) == "variant-drift" else [ctx.pid],
+                          "sc": [] if mm.group(2) in ("variant-drift", "open-body") else [ctx.pid],
                           "rule": r["plain"]["rule"], "data": r["plain"]["data"], "expected": "Eval(rule, data)", "actual": r["plain"]["out"], "profile": "test-profile"}, "suite-trace")
     ctx.evaluations += len(lines); ctx.validated += len(lines) - nbad
     ctx.validate_events(ev, "suite-trace")
